@@ -28,6 +28,8 @@ import Mamba.Lemmas.DistancePatonIndep2
 import Mamba.Lemmas.DistanceGibbsBlock
 import Mamba.Lemmas.DistanceSpanCycle
 import Mamba.Lemmas.DistanceEvenMinimal
+import Mamba.Lemmas.DistanceGibbsKept
+import Mamba.Lemmas.DistanceCyclesTotal
 /-!
 # C10 — property theorems
 
@@ -577,20 +579,9 @@ theorem induced_cycles_orbits (g : G) (hsym : ∀ u v, g.adj u v = g.adj v u) (c
 below 2 (the parents of the vertices waiting on the stack `X` are never deeper than the vertex being examined:
 Paton's remark that a back edge leads to a vertex at distance one from the tree path to `v`), following `T` from a
 tree vertex never meets `-1`, all indices are in range, and the `for len(X) > 0` loop terminates within `n + 1`
-iterations — and Gibbs' steps 2–4 return a value on the fundamental cycles it produced.
-Proved separately below: `paton_cycles_sound` (every fundamental cycle is a simple cycle), `paton_cycles_count`
-(`m - n + 1` of them on a connected graph), `paton_cycles_independent` (each has a private non-tree edge),
-`gibbs_Q_span` (`Q` = all non-empty XOR combinations), `gibbs_sets_even` (all of `Q ⊇ S` has even degrees).
-NOT proved: (a) totality of the last step `numberFound[len(V)]++`, which needs `len(V) ≤ n` for every set `V` kept
-by Gibbs' algorithm, i.e. that every such set is a single cycle (proved: `paton_cycles_span`, every cycle of the
-block is an XOR of fundamental cycles and lies in `Q`; `even_set_edge_on_cycle`, `minimal_even_set_is_cycle`: every
-edge of an even edge set lies on a simple cycle inside it. Missing: the link to the array code of step 3 — an
-invariant of the swap-remove loop saying that every element of the original `R` contains an element of the current
-`R`, and the stage-wise version of `gibbs_Q_span` showing that the cycle through the new non-tree edge found inside a
-kept set `V` is itself an element of `R`); (b) correctness: Gibbs' steps keep exactly
-the elements of the cycle space that are single cycles, so that the counts by length are `numCycles g l`
-(`numCycles_spec`). Both are validated per input (`F=ok`, for `m - n ≤ 12`; Go vs reference for `m - n ≤ 14`). -/
-theorem numberOfCycles_phases_total_partial (g : G) (hsym : ∀ u v, g.adj u v = g.adj v u) (bicom : List Nat)
+iterations — and Gibbs' steps 2–4 return a value on the fundamental cycles it produced. (An earlier milestone; the
+full totality of the model, including the final `numberFound[len(V)]++`, is `numberOfCycles_model_total` below.) -/
+theorem numberOfCycles_phases_total (g : G) (hsym : ∀ u v, g.adj u v = g.adj v u) (bicom : List Nat)
     (hne : 0 < (g.induced bicom).n) :
     ∃ st, Model.patonLoop (g.induced bicom) ((g.induced bicom).n + 1) (patonInit (g.induced bicom).n) = .ok st ∧
       ∀ f0 fs, st.fund = f0 :: fs → ∃ gs, Model.gibbsLoop fs { S := [f0], Q := [f0] } = .ok gs := by
@@ -667,7 +658,7 @@ theorem gibbs_Q_span (a : G) (hsym : ∀ u v, a.adj u v = a.adj v u) (hirr : ∀
 (`EvenSet`: `degIn n t w`, the number of codes of `t` that are codes of an edge at `w`, is even). A cycle has degree
 2 on its vertices and 0 elsewhere (`cycle_even`, through the degree formula `path_deg` along a path), and the parity
 of every count is additive under `sXor` (`sXor_countP`). NOT proved: that the sets kept in `S` are single cycles
-(`gibbs_kept_is_cycle`) and that every cycle is kept once; see `numberOfCycles_phases_total_partial`. -/
+(`gibbs_kept_is_cycle`) and that every cycle is kept once; see `numberOfCycles_phases_total`. -/
 theorem gibbs_sets_even (a : G) (hsym : ∀ u v, a.adj u v = a.adj v u) (hirr : ∀ v, a.adj v v = false)
     (hn : 0 < a.n) (fuel : Nat) (st : Model.PatonSt) (hres : Model.patonLoop a fuel (patonInit a.n) = .ok st)
     (f0 : List Nat) (fs : List (List Nat)) (hfund : st.fund = f0 :: fs) (gs : Model.GibbsSt)
@@ -717,6 +708,60 @@ theorem minimal_even_set_is_cycle (n : Nat) (t : List Nat) (hnd : t.Nodup) (hne 
     (hmin : ∀ u : List Nat, u.Nodup → u ≠ [] → (∀ z ∈ u, z ∈ t) → EvenSet n u → ∀ z ∈ t, z ∈ u) :
     ∃ c, IsCycleSeq (codeG n t) c ∧ t.Perm (cycCodes c) :=
   minimal_even_is_cycle hnd hne hcodes hev hmin
+
+/-- `NumberOfCycles`, Gibbs' step 3 (the swap-remove loop `for j := len(R)-1; j >= 0; j--`), abstractly: let `R0` be
+the original list (strictly increasing lists) and `Good` a property such that every element of `R0` contains a good
+element of `R0`. Along the loop every element of the current `R` is an element of `R0`, and every element of `R0`
+still contains an element of the current `R` (a removed set contains the set that caused its removal); hence an
+element that is tested and not removed is good. So every element of the returned `R` is good. -/
+theorem gibbs_step3_kept (Good : List Nat → Prop) (R0 : List (List Nat))
+    (hs0 : ∀ V ∈ R0, V.Pairwise (· < ·))
+    (hC : ∀ V ∈ R0, ∃ W ∈ R0, Good W ∧ ∀ x ∈ W, x ∈ V) (R' : Array (List Nat)) (P' : List (List Nat))
+    (h : Model.gibbsStep3 R0.length R0.toArray [] = .ok (R', P')) : ∀ V ∈ R'.toList, Good V := by
+  intro V hV
+  have := gibbsStep3_kept Good R0 hs0 hC R0.length R0.toArray [] R' P' (by simp)
+    (fun k hk => by
+      have hk' : k < R0.length := by simpa using hk
+      have : R0.toArray[k] = R0[k] := by simp
+      rw [this]; exact List.getElem_mem hk')
+    (fun W hW => by
+      obtain ⟨k, hk, hkW⟩ := List.getElem_of_mem hW
+      refine ⟨k, by simpa using hk, fun x hx => ?_⟩
+      have : R0.toArray[k]'(by simpa using hk) = W := by simpa using hkW
+      rw [this] at hx; exact hx) h V hV
+  rcases this with ⟨k, hk, hjk, _⟩ | hg
+  · simp at hk hjk; omega
+  · exact hg
+
+/-- `NumberOfCycles`, Gibbs' selection is sound: on a connected simple block `a`, every set kept in `S` at the end
+of Gibbs' loop is the sorted edge-code list of a simple cycle of `a`, and therefore has at most `n` elements — the
+index `numberFound[len(V)]` of the final loop is in range. Proof, per fundamental cycle `fc` with private non-tree
+edge `e`: an element `V = t XOR fc` of `R` is even (`gibbs_sets_even`) and contains `e`; by
+`even_set_edge_on_cycle` there is a simple cycle `W ⊆ V` through `e`; by the spanning property for even sets
+(`even_span`) `W` is the XOR of fundamental cycles whose private edges lie on `W ⊆ V`, so they are `fc` and earlier
+ones, i.e. `W = t' XOR fc` with `t' ∈ Q` (stage-wise `gibbs_Q_span`), and `t'` meets `fc` because otherwise
+`fc ⊆ W ⊆ V`, which the length test `len(tmp) != len(t) + len(fc)` excludes (`sXor_length`); so `W ∈ R`, and
+`gibbs_step3_kept` applies with `Good` = "is a simple cycle". -/
+theorem gibbs_kept_is_cycle (a : G) (hsym : ∀ u v, a.adj u v = a.adj v u) (hirr : ∀ v, a.adj v v = false)
+    (hn : 0 < a.n) (hconn : ∀ x, x < a.n → Reach a 0 x) (fuel : Nat) (st : Model.PatonSt)
+    (hres : Model.patonLoop a fuel (patonInit a.n) = .ok st)
+    (f0 : List Nat) (fs : List (List Nat)) (hfund : st.fund = f0 :: fs) (gs : Model.GibbsSt)
+    (hg : Model.gibbsLoop fs { S := [f0], Q := [f0] } = .ok gs) :
+    ∀ V ∈ gs.S, IsCycCode a V ∧ V.length ≤ a.n :=
+  gibbs_kept_cycle a hsym hirr hn hconn fuel st hres f0 fs hfund gs hg
+
+/-- **`NumberOfCycles` never panics.** For every simple graph `g` the faithful model of `NumberOfCycles`
+(`BiconnectedComponents`, then per block Paton's fundamental cycles, Gibbs' loop, and the counting loop
+`numberFound[len(V)]++`) returns a list of length `n + 1`: no index is out of range, no loop runs out of fuel. The
+last step is in range because every set kept by Gibbs' loop is a single simple cycle of the block
+(`gibbs_kept_is_cycle`), hence has at most `len(bicom) ≤ n` edges; the blocks are connected
+(`bicon_blocks_connected`) and `InducedSubgraph(g, bicom)` inherits the walks (`walk_to_induced`).
+NOT proved: the counts themselves (`numCycles_spec`) — that every simple cycle of a block is kept exactly once
+(completeness of step 3: a single cycle in `R` contains no other element of `R`, and `Q` has no duplicates); the
+counts are validated per input (`F=ok` for `m - n ≤ 12`; Go vs reference for `m - n ≤ 14`). -/
+theorem numberOfCycles_model_total (g : G) (hsym : ∀ u v, g.adj u v = g.adj v u) (hirr : ∀ v, g.adj v v = false) :
+    ∃ r, Model.numberOfCycles g = .ok r ∧ r.length = g.n + 1 :=
+  numberOfCycles_total g hsym hirr
 
 /-! ## Invariance under relabelling
 
